@@ -107,7 +107,7 @@ KEYS = {
     "logrec": ["id", "level", "parent", "marker"],
     "tupd": ["tid", "kind", "t", "res"], "tdelb": ["tid"], "tdel": ["tid", "kind", "res"],
     "tact": ["tid", "kind", "res"], "nexp": ["has", "x"],
-    "slablen": ["aid", "ready", "len"], "slabdrop": ["aid"],
+    "slablen": ["aid", "ready", "len", "iter", "empty", "zombies"], "slabdrop": ["aid"],
     "mkfwd": ["fid", "aid"], "fwd": ["fid", "val"], "fcall": ["fid", "aid", "val"],
     "apply": ["item", "aid"], "query": ["item", "aid"], "querye": ["item", "aid", "some"],
 }
